@@ -282,6 +282,20 @@ func directedScenarios() []directedT {
 				{Kind: "release", K: 2, D: 1}, {Kind: "cmd", Arg: "isready"}},
 			rules: []sched.Rule{{Point: "uci.fwd.closed", Occ: 1, Until: "uci.go.activated", UntilOcc: 2, Timeout: h}},
 		},
+		{ // the same with a new game in between (whatever the driver counts per game starts again)
+			name: "stale-forwarder-across-ucinewgame",
+			steps: []stepT{{Kind: "cmd", Arg: "position startpos"}, {Kind: "cmd", Arg: "go depth 2"}, {Kind: "release", K: 1, D: 1},
+				{Kind: "cmd", Arg: "ucinewgame"}, {Kind: "cmd", Arg: "position startpos moves e2e4"}, {Kind: "cmd", Arg: "go depth 1"}, {Kind: "pause", D: 2},
+				{Kind: "release", K: 2, D: 1}, {Kind: "cmd", Arg: "isready"}},
+			rules: []sched.Rule{{Point: "uci.fwd.closed", Occ: 1, Until: "uci.go.activated", UntilOcc: 2, Timeout: h}},
+		},
+		{ // ... and with the new game's search still running when the old forwarder gets through
+			name: "stale-forwarder-across-ucinewgame-infinite",
+			steps: []stepT{{Kind: "cmd", Arg: "position startpos"}, {Kind: "cmd", Arg: "go depth 2"}, {Kind: "release", K: 1, D: 1},
+				{Kind: "cmd", Arg: "ucinewgame"}, {Kind: "cmd", Arg: "position startpos moves e2e4"}, {Kind: "cmd", Arg: "go infinite"}, {Kind: "pause", D: 2},
+				{Kind: "release", K: 2, D: 1}, {Kind: "pause", D: 3}, {Kind: "cmd", Arg: "stop"}, {Kind: "cmd", Arg: "isready"}},
+			rules: []sched.Rule{{Point: "uci.fwd.closed", Occ: 1, Until: "uci.go.activated", UntilOcc: 2, Timeout: h}},
+		},
 		{ // a new position arrives while the search is running: its forwarder finishes while the loop is still inside Halt
 			name: "supersede-while-unwinding",
 			steps: []stepT{{Kind: "cmd", Arg: "position startpos"}, {Kind: "cmd", Arg: "go depth 5"}, {Kind: "release", K: 1, D: 1},
